@@ -122,7 +122,7 @@ pub fn run_fast_case(ctx: &Ctx, c: &Case, verbose: bool) -> u64 {
     let image = image_of(c);
     // the tape file arrives through an asset returning short reads of a size that rotates with the case
     let chunk = [0usize, 1, 2, 3, 7, 127, 128, 129][(image.len() + c.requests.len() + c.requests.first().map_or(0, |r| r.de as usize + r.ix as usize)) % 8];
-    if e.load_tape(Tape::Tap(VAsset::new(image).chunked(chunk))).is_err() {
+    if e.load_tape(Tape::Tap(VAsset::new(image).chunked(chunk).eof_as_zero(c.requests.len() % 2 == 0))).is_err() {
         ctx.violation("C10:load_tape-error", "load_tape failed for a well-formed TAP", case_json(c, "fast"));
         return 0;
     }
